@@ -9,6 +9,32 @@ import (
 	"github.com/theory/sqljson/path/ast"
 )
 
+// integerMath applies op to lhs and rhs as integers unless the exact result
+// does not fit in an int64, in which case it applies op to them as floats.
+func integerMath(lhs, rhs int64, op ast.BinaryOperator) (any, error) {
+	overflow := false
+	switch op {
+	case ast.BinaryAdd:
+		overflow = (rhs > 0 && lhs > math.MaxInt64-rhs) || (rhs < 0 && lhs < math.MinInt64-rhs)
+	case ast.BinarySub:
+		overflow = (rhs < 0 && lhs > math.MaxInt64+rhs) || (rhs > 0 && lhs < math.MinInt64+rhs)
+	case ast.BinaryMul:
+		if lhs != 0 && rhs != 0 {
+			res := lhs * rhs
+			overflow = res/rhs != lhs || (lhs == -1 && rhs == math.MinInt64) || (rhs == -1 && lhs == math.MinInt64)
+		}
+	case ast.BinaryDiv:
+		overflow = lhs == math.MinInt64 && rhs == -1
+	default:
+		// No other operator can overflow.
+	}
+
+	if overflow {
+		return executeFloatMath(float64(lhs), float64(rhs), op)
+	}
+	return executeIntegerMath(lhs, rhs, op)
+}
+
 // executeIntegerMath compares lhs to rhs using op and returns the resulting
 // value. op must be a binary math operator. Returns an error for an attempt
 // to divide by zero.
@@ -102,7 +128,7 @@ func (exec *Executor) execUnaryMathExpr(
 			if found == nil && next == nil {
 				return statusOK, nil
 			}
-			val = intCallback(v)
+			val = applyInt(v, intCallback, floatCallback)
 		case float64:
 			if found == nil && next == nil {
 				return statusOK, nil
@@ -199,12 +225,12 @@ func execMathOp(left, right any, op ast.BinaryOperator) (any, error) {
 	case int64:
 		switch right := right.(type) {
 		case int64:
-			return executeIntegerMath(left, right, op)
+			return integerMath(left, right, op)
 		case float64:
 			return executeFloatMath(float64(left), right, op)
 		case json.Number:
 			if right, err := right.Int64(); err == nil {
-				return executeIntegerMath(left, right, op)
+				return integerMath(left, right, op)
 			}
 			if right, err := right.Float64(); err == nil {
 				return executeFloatMath(float64(left), right, op)
